@@ -117,6 +117,28 @@ def coqchk(prop):
     return {"theorem": f"coqchk -o NPS.Props.{prop}", "ok": rc == 0 and "<none>" in axioms, "assumptions": "coqchk axioms: " + axioms[:200]}
 
 
+# ---------------------------------------------------------------- translator tie (DESIGN 2.3)
+def translator_tie(groups):
+    """re-translate the arithmetic kernels from $VERIF_REPO's current source, recompile the generated definitions and the tie lemmas
+    `generated kernel = hand model`; one obligation per lemma of Tie/Tie_<group>.v"""
+    res = []
+    with lock("gen"):
+        rc, out = sh([PY, str(ROOT / "tools" / "translate.py"), REPO, str(COQ / "Gen")], timeout=120)
+        failed = dict(l[7:].split(": ", 1) for l in out.splitlines() if l.startswith("FAILED "))
+        if rc != 0:
+            return [{"tie": "translator runs on the current source (fail-closed)", "ok": False, "detail": out[-400:]}]
+        for g in groups:
+            lemmas = re.findall(r"^Lemma (\w+)", (COQ / "Tie" / f"Tie_{g}.v").read_text(), re.M)
+            rc1, o1 = sh(["timeout", "300", "coqc", "-Q", ".", "NPS", f"Gen/K_{g}.v"], cwd=COQ, timeout=320)
+            rc2, o2 = (1, "generated kernels do not compile") if rc1 else sh(["timeout", "600", "coqc", "-Q", ".", "NPS", f"Tie/Tie_{g}.v"], cwd=COQ, timeout=620)
+            bad = [k for k in failed]
+            detail = ("; ".join(f"{k}: {v}" for k, v in failed.items()) + " | " if failed else "") + (o1 + o2)[-500:]
+            for lm in lemmas:
+                res.append({"tie": f"Tie/Tie_{g}.v {lm}: kernel re-translated from the current source = hand model (coqc, decision procedure)",
+                            "ok": rc1 == 0 and rc2 == 0, "detail": "" if rc1 == 0 and rc2 == 0 else detail})
+    return res
+
+
 # ---------------------------------------------------------------- oracle
 def build_oracle():
     with lock("oracle"):
